@@ -248,6 +248,8 @@ def t2(workdir):
             sys.stderr.write("T2: a library source does not compile\n" + err[-2000:])
             return None
         os.replace(obj + ".tmp%d" % os.getpid(), obj)       # (several checks may run the translator at the same time)
+    LIB_OBJS[:] = [o for o in objs if o != allh]
+    LIB_OBJS.append(hh)
     # prune old objects
     keep = set(objs)
     for f in os.listdir(objdir):
@@ -309,6 +311,98 @@ def t2(workdir):
     return writable, cimports
 
 
+# ---------------------------------------------------------------------------------------------
+# T3: the struct schemas (key, kind written, width kept by the reader, mandatory for the reader, order) extracted by RUNNING
+# the working tree's own write()/read() functions (tools/t3_probe.cpp) - semantic, so that a refactoring leaves it unchanged
+LIB_OBJS = []
+
+
+def t3(workdir):
+    if not LIB_OBJS:
+        return None
+    objs, hh = LIB_OBJS[:-1], LIB_OBJS[-1]
+    probe = os.path.join(HERE, "t3_probe.cpp")
+    key = hashlib.sha256((hh + "".join(sorted(os.path.basename(o) for o in objs)) + open(probe).read()).encode()).hexdigest()[:24]
+    cached = os.path.join(CACHE, "t3_" + key + ".txt")
+    if os.path.exists(cached):
+        return open(cached).read()
+    exe = os.path.join(workdir, "t3_probe")
+    r = sh(["g++", "-std=gnu++14", "-msse4", "-O0", "-fno-access-control", "-I", os.path.join(REPO, "src"), probe] + objs +
+           ["-lz", "-llzma", "-lpthread", "-o", exe])
+    if r.returncode != 0:
+        sys.stderr.write("T3: the schema probe does not compile against the working tree\n" + r.stderr[-3000:])
+        return None
+    r = sh(["timeout", "120", exe])
+    if r.returncode != 0 or "ERROR" in r.stdout or "AMBIGUOUS" in r.stdout:
+        sys.stderr.write("T3: the schema probe failed\n" + (r.stdout + r.stderr)[-3000:])
+        return None
+    tmp = cached + ".tmp%d" % os.getpid()
+    open(tmp, "w").write(r.stdout)
+    os.replace(tmp, cached)
+    for f in glob.glob(os.path.join(CACHE, "t3_*.txt")):
+        if f != cached and os.path.getmtime(f) < __import__("time").time() - 3600:
+            os.remove(f)
+    return r.stdout
+
+
+def lean_sig(sg):
+    m = re.fullmatch(r"u(\d+)", sg)
+    if m:
+        return f"(.u {m.group(1)})"
+    m = re.fullmatch(r"arr\((.*)\)", sg)
+    if m:
+        return f"(.arr {lean_sig(m.group(1))})"
+    return {"i64": ".i64", "tstr": ".tstr", "bstr": ".bstr", "bool": ".bool", "struct": ".struct"}.get(sg, f'(.other "{sg}")')
+
+
+def emit_schemas(text):
+    order, wsig, member, req, rsig, rt, base = {}, {}, {}, {}, {}, {}, {}
+    names = []
+    for line in text.splitlines():
+        p = line.split()
+        if p[0] == "BASE":
+            names.append(p[1]); base[p[1]] = [int(x) for x in p[2:]]
+        elif p[0] == "W":
+            wsig[(p[1], int(p[3]))] = p[4]; member[(p[1], int(p[3]))] = p[2]
+        elif p[0] == "ORDER":
+            order[p[1]] = [int(x) for x in p[2:]]
+        elif p[0] == "REQ":
+            req[(p[1], int(p[2]))] = p[3] != "0"
+        elif p[0] == "R":
+            rsig[(p[1], int(p[2]))] = p[3]
+        elif p[0] == "RT":
+            rt[p[1]] = p[2] == "1"
+    L = ["/- GENERATED by tools/translate.py (T3) from the working tree of /repo - do not edit.",
+         "   Obtained by running the library's own write()/read() functions (tools/t3_probe.cpp), not by reading source text. -/",
+         "namespace CdnsVerif.Generated", "",
+         "inductive KindSig where", "  | u (bits : Nat) | i64 | tstr | bstr | bool | arr (e : KindSig) | struct | other (s : String)",
+         "  deriving DecidableEq, Repr", "",
+         "/-- per struct, in the order the writer emits the members when all are set:",
+         "    (key, kind of the item written for the member set to the all-ones value of its own type,",
+         "     what the reader keeps of 2^64-1 (unsigned members), does the reader throw when the member is missing) -/",
+         "def schemaTable : List (String × List (Int × KindSig × Option KindSig × Bool)) := ["]
+    rows = []
+    for n in names:
+        rs = []
+        for k in order[n]:
+            r = rsig.get((n, k))
+            rs.append(f"({k}, {lean_sig(wsig.get((n, k), '?'))}, {'some ' + lean_sig(r) if r else 'none'}, {'true' if req[(n, k)] else 'false'})")
+        rows.append(f'  ("{n}", [' + ",\n    ".join(rs) + "])")
+    L.append(",\n".join(rows)); L.append("]"); L.append("")
+    L.append("/-- member names behind the keys (information for the reader of this file) -/")
+    L.append("def schemaMembers : List (String × List (Int × String)) := [")
+    L.append(",\n".join(f'  ("{n}", [' + ", ".join(f'({k}, "{member.get((n, k), "?")}")' for k in order[n]) + "])" for n in names))
+    L.append("]"); L.append("")
+    L.append("/-- keys a default-constructed struct writes (members that are always written) -/")
+    L.append("def schemaAlways : List (String × List Int) := [")
+    L.append(",\n".join(f'  ("{n}", [{", ".join(map(str, base[n]))}])' for n in names)); L.append("]"); L.append("")
+    L.append("/-- read of the all-members encoding followed by write reproduces the bytes -/")
+    L.append("def schemaRoundTrips : List (String × Bool) := [")
+    L.append(",\n".join(f'  ("{n}", {"true" if rt.get(n) else "false"})' for n in names)); L.append("]"); L.append("")
+    L.append("end CdnsVerif.Generated")
+    return "\n".join(L) + "\n"
+
+
 def emit_globals(writable, cimports):
     L = ["/- GENERATED by tools/translate.py (T2) from objects built from the working tree of /repo – do not edit.",
          "   writable static-storage symbols (nm sections b/B/d/D) with their class: constQualified (top-level const in the DWARF",
@@ -351,6 +445,11 @@ def main():
             ok = False
         else:
             write_if_changed(os.path.join(GEN, "Globals.lean"), emit_globals(*g))
+        sc = t3(work) if g is not None else None
+        if sc is None:
+            ok = False
+        else:
+            write_if_changed(os.path.join(GEN, "Schemas.lean"), emit_schemas(sc))
     finally:
         shutil.rmtree(work, ignore_errors=True)
     return 0 if ok else 2
